@@ -119,3 +119,84 @@ Proof.
   induction n as [|n IH]; [reflexivity|]. cbn [repeat dialer_loop]. unfold dial_peer at 1.
   rewrite aget_aset, Z.eqb_refl. destruct (Z.eqb_spec i x); [contradiction|]. exact IH.
 Qed.
+
+(* ---- overlapping dials ---- *)
+(* every delivered result belongs to a call, and a success carries that call's
+   own requested peer *)
+Definition res_ok (req : nat -> option Z) (r : nat * dres) : Prop :=
+  exists x, req (fst r) = Some x /\ forall p, snd r = DLink p -> x <> 0 -> p = x.
+
+Definition cinv (req : nat -> option Z) (st : cstate) : Prop :=
+  Forall (res_ok req) (c_res st) /\ Forall (fun w => req (fst w) = Some (snd w)) (c_wait st).
+
+Lemma cstep_inv a req st e :
+  (forall x, e = Call x -> req (c_next st) = Some x) ->
+  cinv req st -> cinv req (cstep a st e).
+Proof.
+  intros He [HR HW]. destruct e as [x|who|]; cbn [cstep].
+  - specialize (He x eq_refl). destruct (c_wait st) as [|w ws] eqn:Ew.
+    + destruct (aget a (c_tab st)) as [p|]; split; cbn [c_res c_wait]; auto.
+      * apply Forall_app. split; [exact HR|]. constructor; [|constructor].
+        exists x. split; [exact He|]. intros q Hq. cbn in Hq. destruct (Z.eqb p x); discriminate.
+    + split; cbn [c_res c_wait]; [exact HR|].
+      apply Forall_app. split; [exact HW|]. constructor; [exact He|constructor].
+  - destruct (c_wait st) as [|w ws] eqn:Ew; [split; [exact HR|rewrite Ew; constructor]|].
+    destruct who as [|p]; split; cbn [c_res c_wait]; try constructor.
+    + apply Forall_app. split; [exact HR|]. apply Forall_forall. intros r Hr.
+      apply in_map_iff in Hr as [w' [<- Hin]]. rewrite Forall_forall in HW. specialize (HW _ Hin).
+      exists (snd w'). split; [exact HW|]. intros q Hq. discriminate.
+    + apply Forall_app. split; [exact HR|]. apply Forall_forall. intros r Hr.
+      apply in_map_iff in Hr as [w' [<- Hin]]. rewrite Forall_forall in HW. specialize (HW _ Hin).
+      exists (snd w'). split; [exact HW|]. intros q Hq Hx0. cbn [caller_result fst snd] in Hq.
+      destruct (Z.eqb_spec (snd w') 0); [contradiction|]. cbn [negb andb] in Hq.
+      destruct (Z.eqb_spec p (snd w')); cbn [negb] in Hq; [inversion Hq; congruence|discriminate].
+  - split; assumption.
+Qed.
+
+Definition is_call (e : cev) : bool := match e with Call _ => true | _ => false end.
+
+Lemma requested_app_call es x : requested (es ++ [Call x]) (length (filter is_call es)) = Some x.
+Proof.
+  induction es as [|e es IH]; [reflexivity|]. destruct e; cbn [app requested filter is_call length]; exact IH.
+Qed.
+
+Lemma requested_app_keep es e i x : requested es i = Some x -> requested (es ++ [e]) i = Some x.
+Proof.
+  revert i. induction es as [|e' es IH]; intros i; cbn [app requested]; [discriminate|].
+  destruct e'; [destruct i|..]; auto.
+Qed.
+
+Lemma crun_snoc a es e : crun a (es ++ [e]) = cstep a (crun a es) e.
+Proof. unfold crun. rewrite fold_left_app. reflexivity. Qed.
+
+Lemma crun_next a es : c_next (crun a es) = length (filter is_call es).
+Proof.
+  induction es as [|e es IH] using rev_ind; [reflexivity|].
+  rewrite crun_snoc, filter_app, app_length.
+  destruct e as [x|who|]; cbn [cstep filter is_call length].
+  - destruct (c_wait _); [destruct (aget _ _)|]; cbn [c_next]; rewrite IH; lia.
+  - destruct (c_wait _) eqn:E; [rewrite IH; lia|]. destruct who; cbn [c_next]; rewrite IH; lia.
+  - cbn [c_next]. rewrite IH; lia.
+Qed.
+
+Lemma cinv_run a es : cinv (requested es) (crun a es).
+Proof.
+  induction es as [|e es IH] using rev_ind; [split; constructor|].
+  assert (IH' : cinv (requested (es ++ [e])) (crun a es)).
+  { destruct IH as [HR HW]. split.
+    - eapply Forall_impl; [|exact HR]. intros r [x [Hx Hp]]. exists x.
+      split; [apply requested_app_keep, Hx|exact Hp].
+    - eapply Forall_impl; [|exact HW]. intros w Hw. apply requested_app_keep, Hw. }
+  rewrite crun_snoc. apply cstep_inv; [|exact IH'].
+  intros y ->. rewrite crun_next. apply requested_app_call.
+Qed.
+
+(* whatever the overlap of calls, answers and losses: a call that reports a
+   link got a link to the peer IT asked for *)
+Theorem shared_dialer_safe a es i p x :
+  In (i, DLink p) (c_res (crun a es)) -> requested es i = Some x -> x <> 0 -> p = x.
+Proof.
+  intros Hin Hx Hx0. destruct (cinv_run a es) as [HR _]. rewrite Forall_forall in HR.
+  destruct (HR _ Hin) as [y [Hy Hp]]. cbn [fst snd] in *. rewrite Hx in Hy. inversion Hy; subst y.
+  apply Hp; auto.
+Qed.
